@@ -20,18 +20,18 @@ Fixpoint rt_ok (order : list hcall) : Prop :=
   | h :: r => (forall b, In b r -> precedes b h = false) /\ rt_ok r
   end.
 
-Fixpoint seq_ok (i : option idf) (vc : vstate fmsg * cstate fmsg) (order : list hcall)
+Fixpoint seq_ok (rw : option (list fld)) (i : option idf) (vc : vstate fmsg * cstate fmsg) (order : list hcall)
          (fv : option fmsg) (fc : list (string * fmsg)) : Prop :=
   match order with
   | [] => final_matches vc fv fc = true
   | h :: r =>
-      out_matches (snd (f_spec_call i vc (to_call (h_call h)))) (h_out h) = true /\
-      seq_ok i (fst (f_spec_call i vc (to_call (h_call h)))) r fv fc
+      out_matches (snd (f_spec_call i vc (to_call_w rw (h_call h)))) (h_out h) = true /\
+      seq_ok rw i (fst (f_spec_call i vc (to_call_w rw (h_call h)))) r fv fc
   end.
 
-Definition linearization (i : option idf) (vc : vstate fmsg * cstate fmsg) (calls order : list hcall)
+Definition linearization (rw : option (list fld)) (i : option idf) (vc : vstate fmsg * cstate fmsg) (calls order : list hcall)
            (fv : option fmsg) (fc : list (string * fmsg)) : Prop :=
-  Permutation order calls /\ rt_ok order /\ seq_ok i vc order fv fc.
+  Permutation order calls /\ rt_ok order /\ seq_ok rw i vc order fv fc.
 
 (* ---------- remove_first on lists with distinct stamps ---------- *)
 Lemma key_refl h : hcall_key_eqb h h = true.
@@ -72,9 +72,9 @@ Proof.
 Qed.
 
 (* ---------- soundness ---------- *)
-Theorem lin_search_sound i fv fc : forall fuel pending vc,
-  keys_distinct pending = true -> lin_search i fuel pending vc fv fc = true ->
-  exists order, linearization i vc pending order fv fc.
+Theorem lin_search_sound rw i fv fc : forall fuel pending vc,
+  keys_distinct pending = true -> lin_search rw i fuel pending vc fv fc = true ->
+  exists order, linearization rw i vc pending order fv fc.
 Proof.
   induction fuel as [|f IH]; intros pending vc Hd H.
   - destruct pending; [|discriminate]. exists []. repeat split; [constructor|exact H].
@@ -82,12 +82,12 @@ Proof.
     rewrite <- EP in *. assert (Hne : pending <> []) by (rewrite EP; discriminate).
     assert (H' : existsb (fun h =>
                   negb (existsb (fun h' => precedes h' h) pending) &&
-                  (let '(vc', r) := f_spec_call i vc (to_call (h_call h)) in
-                   out_matches r (h_out h) && lin_search i f (remove_first h pending) vc' fv fc)) pending = true).
+                  (let '(vc', r) := f_spec_call i vc (to_call_w rw (h_call h)) in
+                   out_matches r (h_out h) && lin_search rw i f (remove_first h pending) vc' fv fc)) pending = true).
     { rewrite EP in H |- *. exact H. }
     clear H. apply existsb_exists in H'. destruct H' as (h & Hin & Hc).
     apply andb_true_iff in Hc. destruct Hc as [Hmin Hc]. apply negb_true_iff in Hmin.
-    destruct (f_spec_call i vc (to_call (h_call h))) as [vc' r] eqn:S.
+    destruct (f_spec_call i vc (to_call_w rw (h_call h))) as [vc' r] eqn:S.
     apply andb_true_iff in Hc. destruct Hc as [Hout Hrest].
     destruct (IH _ _ (keys_distinct_remove h _ Hd) Hrest) as (order & Hp & Hrt & Hseq).
     exists (h :: order). split; [|split].
@@ -98,10 +98,10 @@ Proof.
 Qed.
 
 (* ---------- completeness ---------- *)
-Theorem lin_search_complete i fv fc : forall order fuel pending vc,
+Theorem lin_search_complete rw i fv fc : forall order fuel pending vc,
   keys_distinct pending = true -> (forall h, In h pending -> precedes h h = false) ->
   (List.length pending <= fuel)%nat ->
-  linearization i vc pending order fv fc -> lin_search i fuel pending vc fv fc = true.
+  linearization rw i vc pending order fv fc -> lin_search rw i fuel pending vc fv fc = true.
 Proof.
   induction order as [|h r IH]; intros fuel pending vc Hd Hself Hfuel (Hp & Hrt & Hseq).
   - apply Permutation_nil in Hp. subst pending. destruct fuel; exact Hseq.
@@ -110,8 +110,8 @@ Proof.
     destruct fuel as [|f]; [rewrite EP in Hfuel; simpl in Hfuel; lia|].
     assert (G : existsb (fun h =>
                   negb (existsb (fun h' => precedes h' h) pending) &&
-                  (let '(vc', r) := f_spec_call i vc (to_call (h_call h)) in
-                   out_matches r (h_out h) && lin_search i f (remove_first h pending) vc' fv fc)) pending = true).
+                  (let '(vc', r) := f_spec_call i vc (to_call_w rw (h_call h)) in
+                   out_matches r (h_out h) && lin_search rw i f (remove_first h pending) vc' fv fc)) pending = true).
     2:{ rewrite EP in G |- *. exact G. }
     apply existsb_exists. exists h. split; [exact Hin|].
     simpl in Hrt, Hseq. destruct Hrt as [Hmin Hrt]. destruct Hseq as [Hout Hseq].
@@ -123,7 +123,7 @@ Proof.
       assert (Hb' : In b (h :: r)) by (eapply Permutation_in; [apply Permutation_sym; exact Hp|exact Hb]).
       destruct Hb' as [<-|Hb']; [rewrite (Hself _ Hin) in Pb; discriminate|].
       rewrite (Hmin _ Hb') in Pb. discriminate.
-    + destruct (f_spec_call i vc (to_call (h_call h))) as [vc' o] eqn:S. simpl in Hout, Hseq.
+    + destruct (f_spec_call i vc (to_call_w rw (h_call h))) as [vc' o] eqn:S. simpl in Hout, Hseq.
       rewrite Hout. simpl. apply IH.
       * apply keys_distinct_remove. exact Hd.
       * intros b Hb. apply Hself. eapply in_remove_first; eauto.
@@ -136,22 +136,22 @@ Qed.
 Definition effective (hist : list hcall) : list hcall :=
   filter (fun h => negb (is_lost h)) (filter (fun h => is_write_call (h_call h)) hist).
 
-Theorem linearizable_b_sound i vinit cinit hist fv fc :
-  linearizable_b i vinit cinit hist fv fc = true ->
+Theorem linearizable_b_sound rw i vinit cinit hist fv fc :
+  linearizable_b rw i vinit cinit hist fv fc = true ->
   forallb allowed_code (filter (fun h => is_write_call (h_call h)) hist) = true /\
-  exists order, linearization i (init_v vinit, init_c cinit) (effective hist) order fv fc.
+  exists order, linearization rw i (init_v vinit, init_c cinit) (effective hist) order fv fc.
 Proof.
   unfold linearizable_b. intros H.
   apply andb_true_iff in H. destruct H as [Ha H]. apply andb_true_iff in H. destruct H as [Hd H].
   split; [exact Ha|]. eapply lin_search_sound; eauto.
 Qed.
 
-Theorem linearizable_b_complete i vinit cinit hist fv fc order :
+Theorem linearizable_b_complete rw i vinit cinit hist fv fc order :
   forallb allowed_code (filter (fun h => is_write_call (h_call h)) hist) = true ->
   keys_distinct (effective hist) = true ->
   (forall h, In h (effective hist) -> h_inv h <= h_resp h) ->
-  linearization i (init_v vinit, init_c cinit) (effective hist) order fv fc ->
-  linearizable_b i vinit cinit hist fv fc = true.
+  linearization rw i (init_v vinit, init_c cinit) (effective hist) order fv fc ->
+  linearizable_b rw i vinit cinit hist fv fc = true.
 Proof.
   intros Ha Hd Hst L. unfold linearizable_b. rewrite Ha. fold (effective hist). rewrite Hd. simpl.
   eapply lin_search_complete; eauto.
@@ -159,22 +159,22 @@ Proof.
 Qed.
 
 (* what C02_ok asserts of a free-running history (the stress tier) and of a forced schedule *)
-Definition hist_of_case (c : ccase) : option (option idf * option fmsg * list (string * fmsg * Z) * list hcall *
+Definition hist_of_case (c : ccase) : option (option (list fld) * option idf * option fmsg * list (string * fmsg * Z) * list hcall *
                                               option fmsg * list (string * fmsg)) :=
   match c with
-  | CaseSched i vinit cinit prog sched results fv fc _ _ _ => Some (i, vinit, cinit, hist_of 0 prog results sched, fv, fc)
+  | CaseSched i vinit cinit prog sched results fv fc _ _ _ => Some (None, i, vinit, cinit, hist_of 0 prog results sched, fv, fc)
   | CaseHist i vinit cinit hist fv fc =>
-      Some (i, vinit, cinit, map (fun p => mkH (fst (fst (fst p))) (snd (fst (fst p))) (snd (fst p)) (snd p)) hist, fv, fc)
+      Some (None, i, vinit, cinit, map (fun p => mkH (fst (fst (fst p))) (snd (fst (fst p))) (snd (fst p)) (snd p)) hist, fv, fc)
   | CaseGen i cinit prog cands sched results reported created fc =>
-      Some (i, None, cinit, hist_of 0 (subst_reported i 0 prog reported) results sched, None, fc)
-  | CaseCfg _ i vinit cinit prog sched results fv fc _ _ _ => Some (i, vinit, cinit, hist_of 0 prog results sched, fv, fc)
+      Some (None, i, None, cinit, hist_of 0 (subst_reported i 0 prog reported) results sched, None, fc)
+  | CaseCfg cfg i vinit cinit prog sched results fv fc _ _ _ => Some (cf_writable cfg, i, vinit, cinit, hist_of 0 prog results sched, fv, fc)
   | _ => None
   end.
 
-Theorem C02_ok_sound c i vinit cinit hist fv fc :
-  hist_of_case c = Some (i, vinit, cinit, hist, fv, fc) -> C02_ok c = true ->
+Theorem C02_ok_sound c rw i vinit cinit hist fv fc :
+  hist_of_case c = Some (rw, i, vinit, cinit, hist, fv, fc) -> C02_ok c = true ->
   forallb allowed_code (filter (fun h => is_write_call (h_call h)) hist) = true /\
-  exists order, linearization i (init_v vinit, init_c cinit) (effective hist) order fv fc.
+  exists order, linearization rw i (init_v vinit, init_c cinit) (effective hist) order fv fc.
 Proof.
   destruct c; simpl; intros E H; inversion E; subst; clear E.
   - apply linearizable_b_sound. exact H.
